@@ -29,11 +29,16 @@ round 1 - 12 caught by the target property's check at first pass, 1 exit 2, 2 on
 another property's check, 5 missed; round 2 - 10 / 0 / 5 / 5; round 3 (run after the
 canonical-form rewrite of section 12) - 9 / 2 / 4 / 5.  A fourth, targeted round of 13
 (ids cNNd/cNNe) went to the properties with the worst first-pass record (C04, C08, C09
-twice each; C02, C03, C05, C07, C10, C14, C16 once): 8 / 0 / 2 / 3.  Every miss led to a
-rule (often one shared between properties whose statements overlap); all 73 are now caught
-by their target.  The first-pass rate did not improve between rounds: independently written
+twice each; C02, C03, C05, C07, C10, C14, C16 once): 8 / 0 / 2 / 3.  A fifth round of 8
+(ids gNN) asked for breakages that ADD code - a new command, option or code path next to
+the existing ones, leaving every existing function intact - since rules anchored in
+existing functions could be blind to those: 6 / 0 / 2 / 0 (the two led to C04 R10, "the
+process table is written only by Watcher", and C05 R9, "reap_process(pid) only for a child
+known to be gone" - the latter also exposed a genuine defect, section 10).  Every miss
+led to a rule (often one shared between properties whose statements overlap); all 81 are
+now caught by their target.  The first-pass rate did not improve between rounds: independently written
 breakages keep finding clauses no rule covered yet - the honest reading is that a new
-change has roughly an even chance of hitting an existing rule, and that the 73 stored
+change has roughly an even chance of hitting an existing rule, and that the 81 stored
 ones are regression tests, not a coverage measure.
 
 | id | property | change | needs, to manifest | caught by |
